@@ -189,6 +189,10 @@ def check_shape(rep, fi, s, scen, world):
     var, coll, body = each[1], each[2], each[3]
     # C12.2 context count: range(N) / range(0, N) with N == ceil(key bits / digest bits) by value
     ok_ctx = False
+    mrev = re.match(r'^reversed\((.*)\)$', coll)
+    if mrev:
+        bad('the digests are joined in reverse context order', 'first context leftmost')
+        coll = mrev.group(1)
     m = re.match(r'^range\((?:0, )?(.*)\)$', coll)
     if m and ', ' not in _top(m.group(1)):
         ok_ctx = True
